@@ -364,7 +364,10 @@ func epsSM9() []*epT {
 				return must(ini.InitKeyExchange(detRand("sm9kx:a"), sm9HidEnc))
 			})},
 			call: func(x *cx, in []byte) (ok bool) {
-				resp := kr.SM9EncBob().NewKeyExchange(sm9UIDBob, sm9UID, 16, true)
+				if sm9kxResp == nil {
+					sm9kxResp = kr.SM9EncBob().NewKeyExchange(sm9UIDBob, sm9UID, 16, true)
+				}
+				resp := sm9kxResp
 				x.g("sm9.KeyExchange.RespondKeyExchange", func() {
 					_, _, err := resp.RespondKeyExchange(detRand("sm9kx:b"), sm9HidEnc, in)
 					ok = err == nil
@@ -375,17 +378,15 @@ func epsSM9() []*epT {
 			seeds: []seedT{S("sm9-kx-rB", func() []byte { rB, _ := sm9KXResponse(); return rB })},
 			call: func(x *cx, in []byte) (ok bool) {
 				_, sB := sm9KXResponse()
-				ini := kr.SM9EncUser().NewKeyExchange(sm9UID, sm9UIDBob, 16, true)
-				must(ini.InitKeyExchange(detRand("sm9kx:a"), sm9HidEnc))
+				ini := sm9KXInitiator()
 				x.g("sm9.KeyExchange.ConfirmResponder[rB]", func() { _, _, err := ini.ConfirmResponder(in, sB); ok = err == nil })
 				return
 			}},
-		&epT{name: "sm9.KeyExchange.ConfirmResponder[sB]", small: true, costly: true, pairLimit: -1,
+		&epT{name: "sm9.KeyExchange.ConfirmResponder[sB]", small: true, costly: true, pairLimit: -1, shortMax1: true,
 			seeds: []seedT{S("sm9-kx-sB", func() []byte { _, sB := sm9KXResponse(); return sB })},
 			call: func(x *cx, in []byte) (ok bool) {
 				rB, _ := sm9KXResponse()
-				ini := kr.SM9EncUser().NewKeyExchange(sm9UID, sm9UIDBob, 16, true)
-				must(ini.InitKeyExchange(detRand("sm9kx:a"), sm9HidEnc))
+				ini := sm9KXInitiator()
 				x.g("sm9.KeyExchange.ConfirmResponder[sB]", func() { _, _, err := ini.ConfirmResponder(rB, in); ok = err == nil })
 				return
 			}},
@@ -394,6 +395,18 @@ func epsSM9() []*epT {
 }
 
 var sm9kxRB, sm9kxSB []byte
+var sm9kxIni, sm9kxResp sm9.KeyExchange
+
+// sm9KXInitiator is an initiator that has sent rA (same stream as the one that produced the seeds). It is reused
+// across inputs: ConfirmResponder overwrites all per-run state it reads.
+func sm9KXInitiator() sm9.KeyExchange {
+	if sm9kxIni == nil {
+		ini := kr.SM9EncUser().NewKeyExchange(sm9UID, sm9UIDBob, 16, true)
+		must(ini.InitKeyExchange(detRand("sm9kx:a"), sm9HidEnc))
+		sm9kxIni = ini
+	}
+	return sm9kxIni
+}
 
 func sm9KXResponse() ([]byte, []byte) {
 	if sm9kxRB == nil {
